@@ -9,3 +9,8 @@ import "github.com/sourcegraph/zoekt"
 func VerifNewFlushCollectSender(opts *zoekt.SearchOptions, sender zoekt.Sender) (zoekt.Sender, func()) {
 	return newFlushCollectSender(opts, sender)
 }
+
+// VerifSendByRepository exposes the unexported sendByRepository (shards.go).
+func VerifSendByRepository(result *zoekt.SearchResult, opts *zoekt.SearchOptions, sender zoekt.Sender) {
+	sendByRepository(result, opts, sender)
+}
